@@ -1363,6 +1363,8 @@ class Exec:
             return self.call_closure(Closure(fn.func, None, fn.obj), args, kwargs, node)
         if isinstance(fn, Obj):
             return self.call_method(fn, "__call__", args, kwargs, node)
+        if type(fn).__name__ == "MethodRef":
+            return self.call_method(fn.recv, fn.name, args, kwargs, node)       # bound built-in method: tokens.append, " ".join
         if isinstance(fn, Opaque):
             return self.registry.call_opaque(self, fn, args, kwargs, node)
         raise Unsupported("call of %r at %s" % (fn, self.where(node)))
